@@ -669,6 +669,25 @@ def gen_c05(tier, seed):
     for i in range(40 if q else 300):
         layout = G.LAYOUTS[i % len(G.LAYOUTS)]
         cases.append(G.rand_history(rng, "memh%d" % i, layout, kinds, 200 if q else 1200, 40 if q else 150, ranges=True, clones=True, caps=True))
+    # a capacity request the backend refuses (byte size overflow, beyond isize::MAX, beyond the user backend's limit), the panic
+    # caught, and the vector used on: its bookkeeping must still describe the block it really has
+    k = 0
+    for c in gen_c10(tier, seed):
+        big = [l for l in c.lines if l.split()[0] in ("reserve", "reserveexact", "shrinkto") and len(l.split()[-1]) > 12]
+        if not big: continue
+        k += 1
+        if q and k % 3: continue
+        c2 = G.Case("memcap%d" % k, (c.size, c.align, c.drop))
+        c2.nvec = c.nvec
+        for l in c.lines:
+            if l in ("release", "end") or l.startswith("dropvec"): continue
+            c2.lines.append(l)
+            if l in big:
+                # fill past the old capacity, shift, read back through every view
+                for _ in range(6): c2.lines.append("push 0 w0")
+                c2.lines += ["insert 0 0 r0", "probe 0", "views 0", "remove 0 1 drop", "iter 0 FFFFFFFFFF"]
+        c2.finish(list(range(c2.nvec)))
+        cases.append(c2)
     return cases
 
 PROPS["C05"] = {"gen": gen_c05, "proj": {"want_cap": True, "want_mem": True, "want_alloc": True},
